@@ -57,10 +57,23 @@ inline bool regex_verdict(int idx, const std::string &text)
     case 0:
         return !text.empty() && text.back() == 'a';
     case 1: {
-        size_t sp = text.find(' ');
-        if (sp == std::string::npos || sp + 1 >= text.size())
+        // ^m[0-9]+\.[0-9]+ [a-g]
+        size_t i = 0;
+        if (text.empty() || text[i] != 'm')
             return false;
-        char c = text[sp + 1];
+        i++;
+        size_t d0 = i;
+        while (i < text.size() && isdigit((unsigned char)text[i]))
+            i++;
+        if (i == d0 || i >= text.size() || text[i] != '.')
+            return false;
+        i++;
+        d0 = i;
+        while (i < text.size() && isdigit((unsigned char)text[i]))
+            i++;
+        if (i == d0 || i + 1 >= text.size() || text[i] != ' ')
+            return false;
+        char c = text[i + 1];
         return c >= 'a' && c <= 'g';
     }
     case 2:
